@@ -668,8 +668,18 @@ void body(ctx_t& c)
                     dataset.flatten(samples, fb);
                     break;
                 case 2:
-                    samples(r.range(0, samples.size() - 1)) = total + r.range(0, 100);
-                    if (has_target)
+                {
+                    // far out of range, around the widths an index could be narrowed to
+                    static const int64_t wide[] = {int64_t(1) << 31, (int64_t(1) << 31) - 1, int64_t(1) << 32, (int64_t(1) << 32) + 1, int64_t(1) << 33,
+                                                   -(int64_t(1) << 32), -(int64_t(1) << 31), std::numeric_limits<int64_t>::max(),
+                                                   std::numeric_limits<int64_t>::min(), int64_t(1) << 16, int64_t(1) << 8};
+                    const auto k                = r.range(0, std::max<int64_t>(total - 1, 0));
+                    samples(r.range(0, samples.size() - 1)) = r.coin(0.3) ? total + r.range(0, 100) : (wide[r.next() % 11] + (r.coin() ? k : 0));
+                    if (samples.min() >= 0 && samples.max() < total)
+                    {
+                        samples(0) = total; // (2^8 / 2^16 may be valid indices of a large dataset)
+                    }
+                    if (has_target && r.coin(0.3))
                     {
                         dataset.targets(samples, tb);
                     }
@@ -678,6 +688,7 @@ void body(ctx_t& c)
                         dataset.flatten(samples, fb);
                     }
                     break;
+                }
                 case 3:
                     samples(r.range(0, samples.size() - 1)) = total;
                     if (nfeat > 0)
